@@ -20,46 +20,9 @@
 -/
 import BufrModel.Lemmas.Wire
 import BufrModel.Lemmas.NestedJson
+import BufrModel.View.WireClass
 namespace Bufr.C09
 open Bufr
-
-/-- operators that both walks count alike and for which the wiring pass needs no state of its own -/
-def quietOp (a : Bool) (id : Nat) : Bool :=
-  id / 1000 == 201 || id / 1000 == 202 || (id / 1000 == 203 && !a) || (id / 1000 == 204 && a) ||
-  id / 1000 == 205 || id / 1000 == 207 || id / 1000 == 208 || id / 1000 == 221
-
-/-- `204YYY` with `YYY ≠ 0` -/
-def opens204 : Desc → Bool
-  | .op id => id / 1000 == 204 && id % 1000 != 0
-  | _ => false
-
-def is31021 : Desc → Bool
-  | .elem e => e.id == 31021
-  | _ => false
-
-def starts31021 : List Desc → Bool
-  | d :: _ => is31021 d
-  | [] => false
-
-/-- a replication factor of class 31 (it never carries an associated field) -/
-def factor31 : Desc → Bool
-  | .elem fe => xOf fe.id == 31
-  | _ => true
-
-mutual
-def quietList (a : Bool) : List Desc → Bool
-  | [] => true
-  | d :: ds => quiet1 a d && (!opens204 d || starts31021 ds) && quietList a ds
-
-def quiet1 (a : Bool) : Desc → Bool
-  | .elem _ => true
-  | .undefElem _ => true
-  | .undefSeq _ => false
-  | .fixedRep id ms => id / 100000 == 1 && quietList a ms
-  | .delayedRep id f ms => id / 100000 == 1 && (!a || factor31 f) && quietList a ms
-  | .op id => quietOp a id
-  | .seq id ms => id / 100000 != 1 && quietList a ms
-end
 
 /-- the registers of the coder that the wiring pass has no counterpart for are idle, and the (single) value
     list is as long as the descriptor list -/
@@ -69,18 +32,21 @@ structure Idle (a : Bool) (s : St) : Prop where
   bdef : s.regs.bitmapDef = .na
   qa : s.regs.qa = .na
   skipped : s.regs.nbitsSkipped = 0
-  vals : ∃ l, s.vals = [l] ∧ l.length = s.descs.length
+  vals : ∃ l, s.vals.head? = some l ∧ l.length = s.descs.length
+  al : ∀ l ∈ s.vals, l.length = s.descs.length
 
 /-- the descriptor `dd` and one value were recorded; the registers both walks look at are unchanged -/
 structure Pushed (dd : DDesc) (s s' : St) : Prop where
   descs : s'.descs = dd :: s.descs
-  vals : ∀ l, s.vals = [l] → ∃ v, s'.vals = [v :: l]
+  vals : ∀ l, s.vals.head? = some l → ∃ v, s'.vals.head? = some (v :: l)
+  al : (∀ l ∈ s.vals, l.length = s.descs.length) → ∀ l ∈ s'.vals, l.length = s'.descs.length
   assoc : s'.regs.assocStack = s.regs.assocStack
   nref : s'.regs.nbitsNewRefval = s.regs.nbitsNewRefval
   bdef : s'.regs.bitmapDef = s.regs.bitmapDef
   qa : s'.regs.qa = s.regs.qa
   skipped : s'.regs.nbitsSkipped = s.regs.nbitsSkipped
   dnp : s'.regs.dnpCount = s.regs.dnpCount
+  links : s'.links = s.links
 
 /-- what the simulation needs from the primitives -/
 structure PushOne (P : Prims) : Prop where
@@ -88,11 +54,12 @@ structure PushOne (P : Prims) : Prop where
   string : ∀ dd n s s', P.string dd n s = .ok s' → Pushed dd s s'
   codeflag : ∀ dd n s s', P.codeflag dd n s = .ok s' → Pushed dd s s'
   newRefval : ∀ e n s s', P.newRefval e n s = .ok s' → Pushed (.plain e) s s'
-  factor : ∀ s v l, P.factorValue s = .ok v → s.vals = [l] → l.head? = some v
+  constant : ∀ dd v s s', P.constant dd v s = .ok s' → Pushed dd s s'
+  factor : ∀ s v l, P.factorValue s = .ok v → s.vals.head? = some l → l.head? = some v
 
 /-- `s'` was reached from `s` by recording descriptors and values only -/
 def Ext (s s' : St) : Prop :=
-  ∃ dl vl l, s.vals = [l] ∧ s'.vals = [vl ++ l] ∧ s'.descs = dl ++ s.descs
+  ∃ dl vl l, s.vals.head? = some l ∧ s'.vals.head? = some (vl ++ l) ∧ s'.descs = dl ++ s.descs
 
 theorem Ext.refl {a : Bool} {s : St} (h : Idle a s) : Ext s s := by
   obtain ⟨l, hl, _⟩ := h.vals
@@ -102,7 +69,7 @@ theorem Ext.trans {a b c : St} (h1 : Ext a b) (h2 : Ext b c) : Ext a c := by
   obtain ⟨d1, v1, l1, e1, e2, e3⟩ := h1
   obtain ⟨d2, v2, l2, f1, f2, f3⟩ := h2
   rw [e2] at f1
-  injection f1 with f1 _
+  injection f1 with f1
   subst f1
   exact ⟨d2 ++ d1, v2 ++ v1, l1, e1, by rw [f2, List.append_assoc], by rw [f3, e3, List.append_assoc]⟩
 
@@ -116,7 +83,7 @@ theorem Pushed.idle {a : Bool} {dd : DDesc} {s s' : St} (hi : Idle a s) (h : Pus
   obtain ⟨v, hv⟩ := h.vals l hl
   exact ⟨fun ha => h.assoc.trans (hi.assoc ha), fun ha => h.nref.trans (hi.nref ha), h.bdef.trans hi.bdef,
     h.qa.trans hi.qa, h.skipped.trans hi.skipped,
-    ⟨v :: l, hv, by rw [h.descs, List.length_cons, List.length_cons, hn]⟩⟩
+    ⟨v :: l, hv, by rw [h.descs, List.length_cons, List.length_cons, hn]⟩, h.al hi.al⟩
 
 /-! ### the coder's side -/
 
@@ -182,13 +149,13 @@ def Meant (o : SubsetOut) (w : WSt) : Prop :=
 
 /-- the flat lists of `s` are initial segments of the final output `o` -/
 def Below (o : SubsetOut) (s : St) : Prop :=
-  ∃ l, s.vals = [l] ∧ l.reverse <+: o.vals ∧ s.descs.reverse <+: o.descs
+  ∃ l, s.vals.head? = some l ∧ l.reverse <+: o.vals ∧ s.descs.reverse <+: o.descs
 
 theorem Below.of_ext {o : SubsetOut} {s s' : St} (h : Ext s s') (hb : Below o s') : Below o s := by
   obtain ⟨dl, vl, l, e1, e2, e3⟩ := h
   obtain ⟨l', f1, f2, f3⟩ := hb
   rw [e2] at f1
-  injection f1 with f1 _
+  injection f1 with f1
   subst f1
   refine ⟨l, e1, ?_, ?_⟩
   · rw [List.reverse_append] at f2
@@ -363,7 +330,7 @@ theorem setRegs_idle {a : Bool} {s : St} {f : Regs → Regs} (hi : Idle a s)
     Idle a (s.setRegs f) ∧ Ext s (s.setRegs f) := by
   obtain ⟨l, hl, hlen⟩ := hi.vals
   refine ⟨⟨fun h => (ha h).trans (hi.assoc h), fun h => (hn h).trans (hi.nref h), hb.trans hi.bdef,
-    hq.trans hi.qa, hs.trans hi.skipped, ⟨l, hl, hlen⟩⟩, ?_⟩
+    hq.trans hi.qa, hs.trans hi.skipped, ⟨l, hl, hlen⟩, hi.al⟩, ?_⟩
   exact ⟨[], [], l, hl, by simpa [St.setRegs] using hl, rfl⟩
 
 /-- an operator that changes registers only, on both sides -/
@@ -667,7 +634,7 @@ theorem count_sim {P : Prims} (hP : PushOne P) {a : Bool} {o : SubsetOut} {dd : 
   obtain ⟨v0, hv0⟩ := hp.vals l hl
   obtain ⟨l', hl', hpre, _⟩ := hb
   rw [hv0] at hl'
-  injection hl' with hl' _
+  injection hl' with hl'
   subst hl'
   cases hfv : P.factorValue s1 with
   | error e => rw [hfv] at hn; cases hn
@@ -900,11 +867,17 @@ theorem read_ok {α : Type} {s s' : St} {r : R α} {a : α} (h : s.read r = .ok 
     injection h with _ h2
     exact ⟨rest, h2.symm⟩
 
+theorem pushAll_al (s : St) (ds : List DDesc) (v : Val) (dd : DDesc) (h : ∀ l ∈ s.vals, l.length = ds.length) :
+    ∀ l ∈ s.vals.map (v :: ·), l.length = (dd :: ds).length := by
+  intro l hl
+  obtain ⟨l0, h0, rfl⟩ := List.mem_map.mp hl
+  rw [List.length_cons, List.length_cons, h l0 h0]
+
 theorem pushed_desc_val (s : St) (dd : DDesc) (rest : Bits) (v : Val) :
     Pushed dd s (({ s.pushDesc dd with bits := rest } : St).pushAll v) := by
-  refine ⟨rfl, fun l hl => ⟨v, ?_⟩, rfl, rfl, rfl, rfl, rfl, rfl⟩
-  show (s.vals.map (v :: ·)) = _
-  rw [hl]
+  refine ⟨rfl, fun l hl => ⟨v, ?_⟩, fun h => pushAll_al s s.descs v dd h, rfl, rfl, rfl, rfl, rfl, rfl, rfl⟩
+  show (s.vals.map (v :: ·)).head? = _
+  rw [List.head?_map, hl]
   rfl
 
 theorem pushOne_decPrimsU : PushOne decPrimsU where
@@ -961,22 +934,34 @@ theorem pushOne_decPrimsU : PushOne decPrimsU where
       obtain ⟨rest, hs1⟩ := read_ok hr
       injection h with h
       subst h hs1
-      refine ⟨rfl, fun l hl => ⟨.int v, ?_⟩, rfl, rfl, rfl, rfl, rfl, rfl⟩
-      show (s.vals.map (Val.int v :: ·)) = _
-      rw [hl]
+      refine ⟨rfl, fun l hl => ⟨.int v, ?_⟩, fun h => pushAll_al s s.descs (.int v) (.plain e) h, rfl, rfl, rfl, rfl, rfl, rfl, rfl⟩
+      show (s.vals.map (Val.int v :: ·)).head? = _
+      rw [List.head?_map, hl]
       rfl
+  constant := by
+    intro dd v s s' h
+    change decConstant dd v s = .ok s' at h
+    unfold decConstant at h
+    injection h with h
+    subst h
+    exact pushed_desc_val s dd s.bits _
   factor := by
     intro s v l h hl
     change decFactorU s = .ok v at h
     unfold decFactorU at h
-    rw [hl] at h
-    simp only at h
-    unfold headVal at h
-    split at h
-    · cases h
-    · injection h with h
-      subst h
-      rfl
+    cases hv : s.vals with
+    | nil => rw [hv] at hl; cases hl
+    | cons l0 r =>
+      rw [hv] at h hl
+      injection hl with hl
+      subst hl
+      simp only at h
+      unfold headVal at h
+      split at h
+      · cases h
+      · injection h with h
+        subst h
+        rfl
 
 /-! ### from the decoder to the wiring pass -/
 
@@ -992,12 +977,15 @@ theorem decodeSubset_wire {a : Bool} {t : List Desc} (hq : quietList a t = true)
     injection h with h
     injection h with ho _
     have hi0 : Idle a ({ bits := bits, vals := [[]] } : St) :=
-      ⟨fun _ => rfl, fun _ => rfl, rfl, rfl, rfl, ⟨[], rfl, rfl⟩⟩
+      ⟨fun _ => rfl, fun _ => rfl, rfl, rfl, rfl, ⟨[], rfl, rfl⟩, fun l hl => by
+        rw [List.mem_singleton] at hl; subst hl; rfl⟩
+    have hhd : ∀ {l : List Val}, s.vals.head? = some l → s.vals.headD [] = l := fun {l} hl => by
+      rw [List.headD_eq_head?_getD, hl]; rfl
     have sim := walkList_sim pushOne_decPrimsU a t hq _ s hi0 hs
     obtain ⟨l, hl, hlen⟩ := sim.1.1.vals
     have hb : Below o s := by
       refine ⟨l, hl, ?_, ?_⟩
-      · rw [← ho, hl]; exact List.prefix_refl _
+      · rw [← ho, hhd hl]; exact List.prefix_refl _
       · rw [← ho]; exact List.prefix_refl _
     have hw0 : WRel ({ bits := bits, vals := [[]] } : St) ({} : WSt) := ⟨rfl, rfl, rfl, rfl, rfl⟩
     have hM0 : Meant o ({} : WSt) := fun hne => absurd rfl hne
@@ -1005,9 +993,9 @@ theorem decodeSubset_wire {a : Bool} {t : List Desc} (hq : quietList a t = true)
     dsimp only at e
     refine ⟨{ nodes := ns, st := w' }, by unfold wireRaw; rw [e], ?_, ?_, g, hw'.tab⟩
     · show w'.next = o.vals.length
-      rw [hw'.next, ← hlen, ← ho, hl]
+      rw [hw'.next, ← hlen, ← ho, hhd hl]
       simp
-    · rw [← ho, hl]
+    · rw [← ho, hhd hl]
       simp [hlen]
 
 /-! ### the side conditions of the conversion theorem hold for such a tree -/
